@@ -3,6 +3,7 @@ package props
 import (
 	"errors"
 	"fmt"
+	"strings"
 	"testing"
 
 	"github.com/onheap/eval"
@@ -359,6 +360,36 @@ func checkC05(c C05Case, r *Rec) *Violation {
 	describe := func(mask int, e *eval.Expr) string {
 		return fmt.Sprintf("config=%s\nsrc=%s\ndump=%s\navailable=%v\nbinding=%v", maskName(mask), src, eval.Dump(e), c.Avail, describeU(u))
 	}
+	// the smallest programs there are: one variable on its own (a program in infix notation only). Three-valued
+	// evaluation of a lone unavailable variable is DNE - not an error, not a default value -, of an available one its value
+	for i, name := range c.Tree.VarNames() {
+		if i >= 3 || u.Var(name) == nil || u.Var(name).Mode != 0 || m.IsBuiltin(name) || tyOfVarSafe(name) < 0 {
+			continue // (only names of the plain kind: b0, i3, B0 ...)
+		}
+		for _, mask := range []int{0, 15} {
+			log := &Log{}
+			cc, _ := NewConfig(u, log, Build{Mask: mask, Infix: true})
+			e, co := SafeCompile(cc, name)
+			if co.Panic != nil || co.Err != nil {
+				continue // (a name infix notation reads as something else: C15's business)
+			}
+			f := NewFetcher(u, cc, log)
+			f.Avail = avail
+			o := Safe(func() (eval.Value, error) { return e.TryEval(f.Ctx()) })
+			switch {
+			case o.Panic != nil || o.Err != nil:
+				return Violf("C05: TryEval of the one-variable program %q (infix notation, config %s, available=%v) fails: %v", name, maskName(mask), avail[name], o)
+			case !avail[name] && o.Val != eval.DNE:
+				return Violf("C05: TryEval of the one-variable program %q (infix notation, config %s) whose variable is unavailable returns %v, not DNE", name, maskName(mask), o)
+			case avail[name] && !m.EqualVal(o.Val, u.Bound()[name]):
+				return Violf("C05: TryEval of the one-variable program %q (infix notation, config %s) returns %v, the variable is bound to %v", name, maskName(mask), o, u.Bound()[name])
+			}
+			if _, err := Safe2Bool(e, f); !avail[name] && err != eval.ErrDNE && u.Var(name).Ty == m.TBool {
+				return Violf("C05: TryEvalBool of the one-variable program %q (infix notation, config %s) whose variable is unavailable returns %v, not ErrDNE", name, maskName(mask), err)
+			}
+			r.Class("one-variable-infix-program")
+		}
+	}
 	for mask := 0; mask < 16; mask++ {
 		log := &Log{}
 		cc, _ := NewConfig(u, log, Build{Mask: mask})
@@ -459,3 +490,23 @@ var propC05 = Prop[C05Case]{
 
 func TestC05(t *testing.T)       { Run(t, propC05) }
 func TestC05Replay(t *testing.T) { Replay(t, propC05) }
+
+// Safe2Bool: TryEvalBool under recover.
+func Safe2Bool(e *eval.Expr, f *Fetcher) (b bool, err error) {
+	defer func() {
+		if p := recover(); p != nil {
+			err = fmt.Errorf("panic: %v", p)
+		}
+	}()
+	return e.TryEvalBool(f.Ctx())
+}
+
+// tyOfVarSafe: the type a universe variable name stands for, -1 for renamed variables.
+func tyOfVarSafe(name string) (ty m.Ty) {
+	defer func() {
+		if recover() != nil {
+			ty = -1
+		}
+	}()
+	return tyOfVar(strings.ToLower(name))
+}
